@@ -163,6 +163,10 @@ Proof.
   intros I F H. unfold register in H. cbv zeta in H. cbn [a_db a_cfg a_reg a_next] in H.
   apply andb_prop in F. destruct F as [F0 Fr]. apply N.eqb_eq in F0. apply negb_true_iff in Fr.
   pose proof I as [I1 I2 I3 I4 I5 I6].
+  match type of H with (match ?x with Some _ => _ | None => _ end) = _ => destruct x eqn:Eg end.
+  2: { inv H. constructor; cbn [a_db a_cfg a_reg a_next]; auto.
+       - intros e He. specialize (I2 e He). lia.
+       - intros i ok Hi. apply I6. lia. }
   match type of H with (if ?c then _ else _) = _ => destruct c end.
   - destruct (finish (do_ack (a_db st) r false)) as [s1 e1] eqn:E. inv H.
     apply finish_do_ack_arel in E.
